@@ -3983,6 +3983,13 @@ coap_dispatch(coap_context_t *context, coap_session_t *session,
             session->recipient_ctx->initial_state == 0) {
           coap_log_warn("OSCORE: PDU could not be decrypted\n");
         }
+        if (sent && session->con_active) {
+          /* The request is no longer being transmitted: free its NSTART slot */
+          session->con_active--;
+          if (session->state == COAP_SESSION_STATE_ESTABLISHED)
+            /* Flush out any entries on session->delayqueue */
+            coap_session_connected(session);
+        }
         coap_delete_node_lkd(sent);
         return;
       } else {
